@@ -451,3 +451,97 @@ Example C14_example_quic_outage :
   og_session TQuic false true false 1 OgRefuse 3 2 =
     Some (mkOgE [Some false; Some false; Some false] [Some true; Some true] 1).
 Proof. vm_compute. reflexivity. Qed.
+
+(* =====================================================================================================================
+   Round 3 — the I/O deadlines of a pooled connection (Net/Deadline.v, proofs Net/DeadlineProofs.v) and the hand-over of
+   a reply from the pipelined read loop to the exchange (Net/HandOver.v over the LTS of Net/Pipeline.v, proofs
+   Net/HandOverProofs.v).
+   ===================================================================================================================== *)
+From Mos Require Import Net.Pipeline Net.PipelineProofs Net.HandOver Net.HandOverProofs Net.Deadline Net.DeadlineProofs.
+
+(* ---- no deadline set during dial / handshake survives into the pooled state ---- *)
+Theorem C14_dial_leaves_no_deadline : forall hs k now,
+  dk_rd (dk_dialled false hs k now) = None /\ dk_wd (dk_dialled false hs k now) = None.
+Proof. exact dk_dial_leaves_no_deadline. Qed.
+Print Assumptions C14_dial_leaves_no_deadline.
+
+(* a pipelined connection's users (read loop re-arming its READ deadline, exchanges writing, time passing, in any
+   order) never touch the write deadline: pooled without one, a query can be written at every age *)
+Theorem C14_pipelined_write_never_times_out : forall c es,
+  dk_wd c = None -> dk_can_write (dk_pipe_run c es) = true.
+Proof. exact dk_pipe_write_never_times_out. Qed.
+Print Assumptions C14_pipelined_write_never_times_out.
+
+(* the one-at-a-time transport re-arms both deadlines before every exchange, whatever it finds *)
+Theorem C14_reuse_overwrites_deadlines : forall io c,
+  0 < io -> dk_can_write (dk_reuse_prepare io c) = true /\ dk_can_read (dk_reuse_prepare io c) = true.
+Proof. exact dk_reuse_overwrites. Qed.
+Print Assumptions C14_reuse_overwrites_deadlines.
+
+(* healthy server, any sequence of ages below the idle time-out, every stream upstream kind: the first exchange dials,
+   every later one gets its reply on the pooled connection (no dial) - the scenario of the kind "aged" *)
+Theorem C14_healthy_at_every_age : forall hs idle io k ages,
+  0 < io -> 0 < idle -> Forall (fun a => a < idle) ages ->
+  dk_session false hs idle io k ages = (true, true) :: map (fun _ => (true, false)) ages.
+Proof. exact dk_healthy_at_every_age. Qed.
+Print Assumptions C14_healthy_at_every_age.
+
+(* REFUTED for the variant that arms SetDeadline(now + handshake time-out) in dialTLS and leaves it armed: on
+   tls+pipeline every exchange on a pooled connection at least that old (and younger than the idle time-out) fails
+   against the healthy server without a dial; plain tls is immune; below the handshake time-out nothing shows *)
+Theorem C14_leaked_handshake_deadline_refuted : forall hs idle io a,
+  0 < hs -> 0 < io -> hs <= a -> a < idle ->
+  dk_session true hs idle io DkTlsP [a] = [(true, true); (false, false)] /\
+  dk_session true hs idle io DkTls [a] = [(true, true); (true, false)] /\
+  (forall b, b < hs -> b < idle -> dk_session true hs idle io DkTlsP [b] = [(true, true); (true, false)]).
+Proof. exact dk_leaked_handshake_deadline. Qed.
+Print Assumptions C14_leaked_handshake_deadline_refuted.
+
+(* ... because nothing on a pipelined connection ever clears a write deadline: once the clock has reached it, no write
+   succeeds, whatever happens meanwhile *)
+Theorem C14_leaked_write_deadline_is_permanent : forall c es d,
+  dk_wd c = Some d -> d <= dk_now (dk_pipe_run c es) -> dk_can_write (dk_pipe_run c es) = false.
+Proof. exact dk_pipe_leaked_write_deadline_is_permanent. Qed.
+Print Assumptions C14_leaked_write_deadline_is_permanent.
+
+(* ---- the read loop is never blocked by a full result channel ----
+   In every reachable state of a pipelined connection (any exchanges, any replies: duplicates, unsolicited, late) the
+   read loop's own next action is enabled; in particular the hand-over is enabled whether the one-slot channel is empty
+   or full, and returns the loop to its read *)
+Theorem C14_reader_never_blocked : forall tcp q0 s,
+  (q0 <= 65536)%N -> reachable tcp q0 s ->
+  match pl_rl s with
+  | PlRIdle => pl_closed s = false -> forall i tag, (i < 65536)%N -> exists s', pl_step s (PlLRecv i tag) = Some s'
+  | PlRHold _ => exists s', pl_step s PlLLookup = Some s'
+  | PlRSend _ _ => exists s', pl_step s PlLSend = Some s' /\ pl_rl s' = PlRIdle
+  end.
+Proof. exact ho_reader_never_blocked. Qed.
+Print Assumptions C14_reader_never_blocked.
+
+Theorem C14_full_channel_reply_dropped : forall s m t th x,
+  pl_rl s = PlRSend m t -> pl_tget s t = Some th -> pl_tchan th = Some x ->
+  pl_step s PlLSend = Some (pl_set_rl PlRIdle s).
+Proof. exact ho_full_channel_drops. Qed.
+Print Assumptions C14_full_channel_reply_dropped.
+
+(* REFUTED for the blocking hand-over (`resChan <- r`): THREE back-to-back copies of one reply wedge the read loop, and
+   it stays wedged in EVERY continuation (it never receives again: no reply for any later exchange, no idle time-out,
+   no close); two copies pass; the code drops the extra copies and serves the next exchange.  TCP and UDP framing. *)
+Theorem C14_blocking_handover_refuted : forall tcp,
+  ho_block_run (removelast (ho_copies 3)) (pl_init tcp 0) = Some (ho_wedge_state tcp) /\
+  ho_wedged (ho_wedge_state tcp) = true /\
+  ho_block_run (ho_copies 3) (pl_init tcp 0) = None /\
+  (forall ls s', ho_block_run ls (ho_wedge_state tcp) = Some s' ->
+     ho_wedged s' = true /\ ho_block_step s' PlLSend = None /\ ho_block_step s' PlLLookup = None /\
+     ho_block_step s' PlLGarbage = None /\ forall i tag, ho_block_step s' (PlLRecv i tag) = None) /\
+  (exists s2, ho_block_run (ho_copies 2 ++ ho_follow_up) (pl_init tcp 0) = Some s2 /\ pl_rl s2 = PlRIdle) /\
+  (exists s3 th, pl_run (ho_copies 3 ++ ho_follow_up) (pl_init tcp 0) = Some s3 /\ pl_rl s3 = PlRIdle /\
+                 pl_tget s3 1%N = Some th /\ pl_tpc th = PlPLeaving (PlRMsg (PlMkMsg 3 9 50))).
+Proof. exact ho_blocking_handover_wedges. Qed.
+Print Assumptions C14_blocking_handover_refuted.
+
+(* non-vacuity with the constants of the code: a pooled tls+pipeline connection 3.4 s old *)
+Example C14_example_aged :
+  dk_session true dk_hs_ds dk_idle_ds dk_io_ds DkTlsP [34] = [(true, true); (false, false)] /\
+  dk_case DkTlsP [34] = [(true, true); (true, false)].
+Proof. exact dk_leak_witness. Qed.
